@@ -255,7 +255,13 @@ class GoDriver:
         env.update({'HR_VERIF_DRIVER': '1', 'HOME': home, 'USER': 'verif', 'GOMEMLIMIT': '1GiB', 'TZ': 'UTC'})
         res = {}
         pending = list(shard)
+        crashes = 0
         while pending:
+            if crashes >= 25:
+                # the driver dies on case after case: the violation is established, do not restart it thousands of times
+                for c in pending:
+                    res[c['id']] = {'id': c['id'], 'status': 'crash', 'text': hx('not run: the driver had crashed 25 times in this shard'), 'out': '', 'rc': -1}
+                break
             lines = [json.dumps(c) for c in pending]
             try:
                 p = subprocess.run(['/bin/sh', '-c', 'ulimit -v 4000000; exec "$0"', staged(self.binary)],
@@ -285,6 +291,7 @@ class GoDriver:
             culprit = pending[answered]
             kind = 'timeout' if rc == -9 else 'crash'
             m = re.search(r'(fatal error: [^\n]*|panic: [^\n]*|signal: [^\n]*)', stderr)
+            crashes += 1
             res[culprit['id']] = {'id': culprit['id'], 'status': kind, 'text': hx(m.group(1) if m else stderr[-200:]), 'out': '', 'rc': rc}
             pending = pending[answered + 1:]
         return res
